@@ -698,9 +698,45 @@ def dbos_clock_modules() -> Dict[str, List[Any]]:
     return {"time": list(c["time"]), "datetime": list(c["datetime"]) + [dir_, lc]}
 
 
+_SLOW_STORE: List[Any] = []
+
+
+def make_slow_store(slow_k: int, lat: Any, land_first: bool) -> Any:
+    """ENVIRONMENT STUB for a store with I/O latency (Postgres / agent-data): a MemoryWorkflowStore whose ``slow_k``-th
+    ``update_handler_status`` call (0-based, counted over the whole scenario) takes ``lat`` virtual seconds — the write takes
+    effect either before the wait (``land_first``) or after it.  Every other call is immediate, as in MemoryWorkflowStore.
+    The class is built once per process (a class created per path would make CrossHair re-analyse it)."""
+    if not _SLOW_STORE:
+        from llama_agents.server._store.memory_workflow_store import MemoryWorkflowStore
+
+        class SlowStore(MemoryWorkflowStore):
+            def __init__(self, slow_k: int, lat: Any, land_first: bool) -> None:
+                super().__init__()
+                self.slow_k, self.lat, self.land_first = slow_k, lat, land_first
+                self.n_status_writes = 0
+                self.slow_hit: Any = None
+
+            async def update_handler_status(self, run_id: str, **kw: Any) -> None:
+                k = self.n_status_writes
+                self.n_status_writes += 1
+                if k != self.slow_k:
+                    await super().update_handler_status(run_id, **kw)
+                    return
+                self.slow_hit = (asyncio.get_event_loop().time(), sorted(kw))
+                if self.land_first:
+                    await super().update_handler_status(run_id, **kw)
+                    await asyncio.sleep(self.lat)
+                else:
+                    await asyncio.sleep(self.lat)
+                    await super().update_handler_status(run_id, **kw)
+
+        _SLOW_STORE.append(SlowStore)
+    return _SLOW_STORE[0](slow_k, lat, land_first)
+
+
 def run_stack(kind: str, idle_timeout: Any, sends: List[Any], make_workflow: Any, make_event: Any, *,
               early: bool = True, probe_to: int = 0, precreate: bool = False, settle: int = 1,
-              horizon: int = 6, simultaneous_resumers: int = 1) -> Dict[str, Any]:
+              horizon: int = 6, simultaneous_resumers: int = 1, slow_write: Any = None) -> Dict[str, Any]:
     """One whole scenario on a fresh MiniLoop / store / runtime stack (``kind`` = "inproc" | "dbos").
 
     * the workflow instance from ``make_workflow()`` is registered as "w" and started through the REAL
@@ -732,7 +768,8 @@ def run_stack(kind: str, idle_timeout: Any, sends: List[Any], make_workflow: Any
         make_lifecycle_db(db_path)
 
     async def main() -> None:
-        st: Any = InprocStack(idle_timeout) if kind == "inproc" else DbosStack(idle_timeout, db_path)
+        store = make_slow_store(*slow_write) if slow_write is not None else None
+        st: Any = InprocStack(idle_timeout, store=store) if kind == "inproc" else DbosStack(idle_timeout, db_path, store=store)
         wf = make_workflow()
         st.add_workflow("w", wf)
         await st.service.start()
@@ -816,6 +853,8 @@ def run_stack(kind: str, idle_timeout: Any, sends: List[Any], make_workflow: Any
         obs["idle_at"] = [(e.timestamp - EPOCH).total_seconds() for e in await st.store.query_events("run1")
                           if e.event.type == "WorkflowIdleEvent"]
         obs["loop_exceptions"] = [str(c.get("exception") or c.get("message")) for c in loop._exc]
+        obs["slow_hit"] = getattr(st.store, "slow_hit", None)
+        obs["status_writes"] = getattr(st.store, "n_status_writes", None)
         await st.service.stop()
         await asyncio.sleep(0)  # let the stop task (cancels whatever is still active) run
 
